@@ -1486,11 +1486,11 @@ func moveTx(s *scenario, from, to int) {
 // 15..18, where the BIP34 height push changes from OP_15 / OP_16 to a one-byte
 // data push; extra nonces at the same encoding edges.
 func genLowHeight(g *core.Gen) {
-	for c := 0; c < g.N(8, 40); c++ {
-		pg := newPoolGen(g.R, 3)
+	for c := 0; c < g.N(12, 60); c++ {
+		pg := newPoolGen(g.R, 3+c%3/2) // world 3 (heights 15..18) twice, world 4 (127..130) once
 		pg.s.fwd = c % 4
 		pg.s.pb = true
-		pg.s.now += spacing(3) * int64(pg.s.fwd)
+		pg.s.now += spacing(pg.s.world) * int64(pg.s.fwd)
 		pg.s.en = extraNonces[g.R.Intn(len(extraNonces))]
 		pg.randomPool(poolOpts{n: g.R.Intn(5), childProb: 30, maxFee: 60000, anyKind: true})
 		s := pg.finish(true)
